@@ -266,6 +266,27 @@ def pyFor {α σ : Type} (xs : List α) (s : σ) (body : σ → α → M σ) : M
     | .ok s' => pyFor rest s' body
     | .error e => .error e
 
+/-- outcome of one iteration of a loop body that can `continue`, `break` or `return` -/
+inductive Step (σ ρ : Type) where
+  | next (s : σ)     -- end of the body or `continue`: go on with the next element
+  | brk (s : σ)      -- `break`
+  | ret (r : ρ)      -- `return r` (of the enclosing function)
+
+/-- outcome of a whole loop: ran to the end / was broken out of (state `s`), or the function returned -/
+inductive Out (σ ρ : Type) where
+  | done (s : σ)
+  | ret (r : ρ)
+
+/-- `for x in xs:` with `continue` / `break` / `return` in the body -/
+def pyForE {α σ ρ : Type} (xs : List α) (s : σ) (body : σ → α → M (Step σ ρ)) : M (Out σ ρ) :=
+  match xs with
+  | [] => .ok (.done s)
+  | x :: rest => match body s x with
+    | .ok (.next s') => pyForE rest s' body
+    | .ok (.brk s') => .ok (.done s')
+    | .ok (.ret r) => .ok (.ret r)
+    | .error e => .error e
+
 /-- Marker emitted by the translator in place of a definition for a function that is outside the
     translated subset; any theorem that applies the function then fails to elaborate. -/
 structure Untranslatable (reason : String) : Type where
